@@ -46,6 +46,7 @@ pub struct Run {
     pub accepted: Vec<u8>,
     pub read_calls: usize,
     pub write_calls: usize,
+    pub flush_calls: usize,
     pub closure_calls: usize,
     pub last_read: Option<RRet>,
     pub pending_read_err: Option<ErrKind>,
@@ -403,6 +404,7 @@ pub fn run_once_shared(
         accepted: std::mem::take(&mut w.accepted),
         read_calls: w.read_calls,
         write_calls: w.write_calls,
+        flush_calls: w.flush_calls,
         closure_calls: w.closure_calls,
         last_read: w.last_read,
         pending_read_err: w.pending_read_err,
